@@ -1,12 +1,12 @@
 //! C02 — fragmented round trip holds for every PDU and every buffer-size schedule.
 
 use crate::common::*;
-use crate::engine::{bx, hash_of, GenPart, Property, Stats, Tier};
+use crate::engine::{bx, hash_of, EnumPart, GenPart, Property, Stats, Tier};
 use dvb_gse_rust::gse_decap::DecapStatus;
 use dvb_gse_rust::gse_encap::{ContextFrag, EncapStatus};
 use proptest::prelude::*;
 use serde::{Deserialize, Serialize};
-use serde_json::json;
+use serde_json::{json, Value};
 
 #[derive(Clone, Debug, PartialEq, Eq, Hash, Serialize, Deserialize)]
 pub struct Case {
@@ -248,12 +248,61 @@ fn check(c: &Case, st: &mut Stats) -> Result<(), String> {
     Ok(())
 }
 
+// ---- enumerated: every PDU length under uniform buffers ------------------------------------------------
+
+const LEN_TOP: u64 = 65534; // index j stands for PDU length j + 1, clamped to 65533 - label length
+
+fn sweep_case(t: Tier, i: u64) -> Case {
+    let n = sweep_lens(t, LEN_TOP);
+    let labkind = (i / n) % 4;
+    let prof = i / n / 4;
+    let lab = match labkind {
+        0 => Lab::Six(ALPHA6[0]),
+        1 => Lab::Three(ALPHA3[0]),
+        2 => Lab::Broadcast,
+        _ => Lab::Six(ALPHA6[1]),
+    };
+    let len = (sweep_len_at(t, LEN_TOP, i % n) + 1).min(65533 - lab.len() as u32);
+    let b: u32 = match prof {
+        0 => 4097,
+        1 => 70000,
+        _ => 1021,
+    };
+    Case {
+        pre: vec![],
+        reuse: ReuseCfg::Enabled,
+        prime: labkind == 3,
+        pdu: Pdu { len, seed: 3 + len },
+        lab,
+        ptype: 0x0600 + ((len as u64 * 7919) % (0x10000 - 0x0600)) as u16,
+        frag_id: (len % 256) as u8,
+        schedule: vec![BufSpec::Abs(b); if b > 4200 { 20 } else { 1 }],
+        tail_base: b.min(4097) as u16,
+        tail_span: 1,
+        storage_extra: len % 2,
+    }
+}
+
+fn check_sweep(i: u64, st: &mut Stats) -> Result<(), String> {
+    check(&sweep_case(st.tier, i), st)
+}
+
 pub fn property() -> Property {
     Property {
         id: "C02",
         rule: "one PDU of 1..=65533-L bytes (classes around 4095 and 65533), any label kind (optionally primed so that the first fragment is substituted; explicit re-use), protocol type >= 0x0600, any frag id, a schedule of 1..40/60 buffer specs (0..=12, 13..64, ..4097, 4098..70000, remaining+3-4..+8, exact fit +-8, header +-) followed by a tail of >= 13-byte buffers; driver as the statement says (encap until Ok, then encap_frag with each returned context; ErrorSizeBuffer = skipped). oracle: a call with a buffer >= 13 never fails; completed no later than 2 calls after the offered room (min(b,4097)-13 per accepted >= 13-byte buffer) reaches the PDU length; the packets, fed in order to a receiver with storage = PDU + {0,1,..}, give FragmentedPkt with the sender's label/protocol type for every non-final packet and exactly one CompletedPkt equal to the original; each decap consumes exactly the reported length. non-trivial = >= 3 packets and (PDU > 4095, a buffer > 4097, a CRC-only end packet, a substituted first label, or a skipped too-small buffer mid-train)",
         assumptions: &["the completion bound credits only min(b,4097)-13 bytes per buffer: maximal filling is not demanded"],
-        parts: vec![Box::new(GenPart {
+        parts: vec![
+        Box::new(EnumPart {
+            name: "every-length-x-label-x-uniform-buffer",
+            rule: "PDU lengths 1..=65533-L (thorough: every one; quick: 1..=4201, the last 241 and every 13th between) x {6-byte, 3-byte, broadcast, substituted 6-byte label} x a uniform buffer size {4097, 70000, 1021}, so that the end of the PDU falls at every offset of the last buffer; same driver and oracle as the schedules",
+            size: |t| sweep_lens(t, LEN_TOP) * 4 * 3,
+            exhaustive: |t| t == Tier::Thorough,
+            check: check_sweep,
+            describe: |t, i| serde_json::to_value(sweep_case(t, i)).unwrap_or(Value::Null),
+            required_classes: &[">=3-packets", "first-label-substituted", "crc-only-end-packet", "buffer>4097", "pdu>4095", "single-packet", "two-packets"],
+        }),
+        Box::new(GenPart {
             name: "schedules",
             rule: "see property rule",
             cases: (480_000, 10_000_000),
